@@ -682,3 +682,29 @@ Example C20_generated_int64_shift_evaluated :
   Generated64.CalculateArithmeticShift 1 62 = Some (2 ^ 62, true) /\ Generated64.CalculateArithmeticShift (2 ^ 62) 1 = Some (- 2 ^ 63, false) /\
   Generated64.CalculateArithmeticShift 3 62 = Some (- 2 ^ 62, false).
 Proof. exact gen64_shift_examples. Qed.
+
+(* ---- DegreeToRadian / RadianToDegree as REGENERATED from common/util.go on every run (generated/GeneratedF.v): the code is the model
+   (one product with the float64 constant the Go compiler folds math.Pi/180, 180/math.Pi into), hence one correctly rounded product
+   with c_d2r_R / c_r2d_R (C20_degree_radian_constants: pi/180 and 180/pi to 2^-60 / 2^-48) ---- *)
+Open Scope R_scope.
+Theorem C20_generated_degree_to_radian_is_the_model : forall d, GeneratedF.DegreeToRadian d = deg2rad d.
+Proof. exact gen_DegreeToRadian_is_deg2rad. Qed.
+Print Assumptions C20_generated_degree_to_radian_is_the_model.
+Theorem C20_generated_radian_to_degree_is_the_model : forall r, GeneratedF.RadianToDegree r = rad2deg r.
+Proof. exact gen_RadianToDegree_is_rad2deg. Qed.
+Print Assumptions C20_generated_radian_to_degree_is_the_model.
+Theorem C20_generated_degree_to_radian_value : forall d, fin d ->
+  Rabs (round radix2 (SpecFloat.fexp FloatOps.prec FloatOps.emax) ZnearestE (rv d * c_d2r_R)) < bpow radix2 FloatOps.emax ->
+  rv (GeneratedF.DegreeToRadian d) = round radix2 (SpecFloat.fexp FloatOps.prec FloatOps.emax) ZnearestE (rv d * c_d2r_R).
+Proof. exact gen_degree_to_radian_value. Qed.
+Print Assumptions C20_generated_degree_to_radian_value.
+Theorem C20_generated_radian_to_degree_value : forall r, fin r ->
+  Rabs (round radix2 (SpecFloat.fexp FloatOps.prec FloatOps.emax) ZnearestE (rv r * c_r2d_R)) < bpow radix2 FloatOps.emax ->
+  rv (GeneratedF.RadianToDegree r) = round radix2 (SpecFloat.fexp FloatOps.prec FloatOps.emax) ZnearestE (rv r * c_r2d_R).
+Proof. exact gen_radian_to_degree_value. Qed.
+Print Assumptions C20_generated_radian_to_degree_value.
+Close Scope R_scope.
+Example C20_generated_degree_radian_evaluated :
+  GeneratedF.DegreeToRadian 180%float = 0x1.921fb54442d18p+1%float /\ GeneratedF.RadianToDegree 0x1.921fb54442d18p+1%float = 180%float /\
+  GeneratedF.DegreeToRadian 0%float = 0%float.
+Proof. exact gen_degree_radian_evaluated. Qed.
